@@ -1,0 +1,72 @@
+//go:build verif
+
+package surveyor
+
+import (
+	"sort"
+
+	"go.nanomsg.org/mangos/v3/protocol"
+)
+
+// Read-only projection of the SURVEYOR socket state for the conformance
+// harness in /verif (build tag "verif").
+
+// VerifSurvey is one registered survey.
+type VerifSurvey struct {
+	ID     uint32
+	Ctx    int // index into the ctxs argument, -1 if unknown
+	Queued int
+	Cap    int
+}
+
+// VerifSnap is the projected state.
+type VerifSnap struct {
+	Closed  bool
+	NextID  uint32
+	Surveys []VerifSurvey
+	Cur     []uint32 // per context: id of the current survey, 0 if none
+	Closeds []bool
+	Pipes   []uint32
+	SendQ   map[uint32]int // per pipe: queued surveys
+}
+
+// VerifSnapshot projects the state of p and of the given contexts (nil
+// stands for the default context).
+func VerifSnapshot(p protocol.Protocol, ctxs []protocol.Context) VerifSnap {
+	s := p.(*socket)
+	s.Lock()
+	defer s.Unlock()
+	cs := make([]*context, len(ctxs))
+	for i, c := range ctxs {
+		if c == nil {
+			cs[i] = s.master
+		} else {
+			cs[i] = c.(*context)
+		}
+	}
+	sn := VerifSnap{Closed: s.closed, NextID: s.nextID, SendQ: map[uint32]int{}}
+	for id, sv := range s.surveys {
+		v := VerifSurvey{ID: id, Ctx: -1, Queued: len(sv.recvQ), Cap: cap(sv.recvQ)}
+		for i, c := range cs {
+			if c == sv.ctx {
+				v.Ctx = i
+			}
+		}
+		sn.Surveys = append(sn.Surveys, v)
+	}
+	sort.Slice(sn.Surveys, func(i, j int) bool { return sn.Surveys[i].ID < sn.Surveys[j].ID })
+	for _, c := range cs {
+		var id uint32
+		if c.surv != nil {
+			id = c.surv.id
+		}
+		sn.Cur = append(sn.Cur, id)
+		sn.Closeds = append(sn.Closeds, c.closed)
+	}
+	for id, pp := range s.pipes {
+		sn.Pipes = append(sn.Pipes, id)
+		sn.SendQ[id] = len(pp.sendQ)
+	}
+	sort.Slice(sn.Pipes, func(i, j int) bool { return sn.Pipes[i] < sn.Pipes[j] })
+	return sn
+}
